@@ -148,13 +148,11 @@ def d4_3(ctx):
         fixed = 2 + len(svc) + path_len + 2
     ctx.check(fixed is not None and isinstance(ov, int) and ov >= fixed, ckey(ms.key, "fixed-part"), init, f"sequence 2 + service {len(svc) if isinstance(svc, bytes) else '?'} + path {path_len} + count 2 = {fixed} <= overhead {ov}",
               f"MULTISERVICE_READ_OVERHEAD = {ov!r} does not cover the fixed part of a multi-service request ({fixed} bytes): grouped packets can exceed the connection size", fixed=fixed, overhead=ov)
-    # per-request cost used by the write loop: len(req.message) = 2-byte sequence + tag_only_message >= tag_only_message + 2-byte offset entry
-    su = ctx.model.cls("pycomm3.packets.ethernetip:SendUnitDataRequestPacket")
-    sm = su.methods["_setup_message"]
-    seq2 = any(isinstance(c, ast.Call) and attr_path(c.func) == "UINT.encode" and attr_path(c.args[0]) == "self._sequence" for c in walk(sm))
-    bm = ms.methods["build_message"]
-    off2 = any(isinstance(c, ast.Call) and attr_path(c.func) == "UINT.encode" and atom_name(c.args[0]) == "offset" for c in walk(bm))
-    ctx.check(seq2 and off2, ckey(ms.key, "per-request-cost"), bm, "each embedded service costs its tag_only_message + a 2-byte offset entry, matched by the 2-byte sequence counted in len(req.message)", "per-request cost accounting (2-byte offset entry vs 2-byte sequence) changed")
+    # per-request cost used by the grouping loops: len(req.message) = 2-byte sequence + embedded message, and the Multiple Service
+    # frame spends the embedded message + one 2-byte offset entry on each request: decided on the witness frames
+    from .packets import _emit
+
+    _emit(ctx, {"multi-request", "read-request", "write-request"})
 
 
 @rule(P, "D4.4", "T-WITNESS", floor=2)
